@@ -42,7 +42,7 @@ def repo_suite_traces(ctx):
     d = os.path.join(ctx.work, "suite")
     os.makedirs(d, exist_ok=True)
     env = dict(ctx.env, REDACT_VERIF_TRACE=os.path.join(d, "t"))
-    r = subprocess.run(["go", "test", "-tags", "verif", "-vet=off", "-count=1", "./..."], cwd="/repo", env=env,
+    r = subprocess.run(["go", "test", "-tags", "verif", "-vet=off", "-count=1", "./..."], cwd=ctx.repo, env=env,
                        capture_output=True, text=True, timeout=1200)
     if r.returncode != 0:
         raise Broken("the repository's test suite fails with the verif tag on:\n" + (r.stdout + r.stderr)[-3000:])
@@ -90,6 +90,7 @@ def printer_control_f3(ctx):
 def c02(ctx):
     for sl in tier(ctx, ["qcls", "wrap", "smoke", "dir"], ["cls", "wrap", "panic", "smoke", "dir"]):
         printer_slice(ctx, sl)
+    ctx.harness(["maporder-drive", "-prop", "C02"])   # maps print in key order: order-isomorphic unsafe keys, same redacted text
     buffer_model(ctx)      # a result that changes after it was returned is not independent of later data
 
 
@@ -126,10 +127,12 @@ def c15(ctx):
 def c17(ctx):
     printer_slice(ctx, "hook", hook="plain")
     printer_slice(ctx, "hook", hook="none")
+    printer_slice(ctx, "hook", hook="panic")
     if ctx.tier == "thorough":
         printer_slice(ctx, "hook", hook="print")
-        printer_slice(ctx, "hook", hook="panic")
         printer_slice(ctx, "qerrorf", hook="plain")
+    # registration is a call like any other: a hook registered or removed after printers were pooled applies at once
+    ctx.harness(["pool-history", "-prop", "C17", "-hook", "-depth", "0"])
 
 
 POOL_KINDS_PLAIN = ["plain", "sprint", "badverb", "widthprec", "fprint", "builder", "markers", "probe-default", "w-outside", "panic-contained", "sprintfn"]
@@ -228,9 +231,16 @@ def c12(ctx):
     ctx.pool_trace_validate(trace, "pool-history")
     # schedules: goroutines x random calls under the race detector, pool events validated
     trace2 = ctx.work + "/pools.ndjson"
-    ctx.reports.append(ctx.harness_race(["pool-stress", "-g", "16", "-secs", str(tier(ctx, 3, 60)), "-trace", trace2,
-                                         "-maxev", str(tier(ctx, 30000, 120000))]))
+    ctx.harness_race(["pool-stress", "-g", "16", "-secs", str(tier(ctx, 3, 60)), "-trace", trace2,
+                      "-maxev", str(tier(ctx, 30000, 120000))])
     ctx.pool_trace_validate(trace2, "pool-stress")
+    # the same with an error hook registered that yields while it runs: calls on other goroutines must not see
+    # that one of them is inside the hook; histories (single-threaded) with the hook as well
+    trace3 = ctx.work + "/poolsh.ndjson"
+    ctx.harness_race(["pool-stress", "-hook", "-g", "16", "-secs", str(tier(ctx, 2, 30)), "-trace", trace3,
+                      "-maxev", str(tier(ctx, 20000, 60000))])
+    ctx.pool_trace_validate(trace3, "pool-stress-hook")
+    ctx.harness(["pool-history", "-hook", "-depth", str(tier(ctx, 1, 2))])
 
 
 def c04(ctx):
@@ -291,7 +301,7 @@ def c08(ctx):
 
 
 def c16(ctx):
-    for sl in tier(ctx, ["qcls", "wrap", "smoke", "dir"], ["cls", "wrap", "panic", "smoke", "qbytes", "dir", "qerrorf"]):
+    for sl in tier(ctx, ["qcls", "wrap", "smoke", "dir", "qbytes"], ["cls", "wrap", "panic", "smoke", "bytes", "dir", "qerrorf"]):
         printer_slice(ctx, sl, module="MCRoutes", cfg="Routes.cfg")
 
 
